@@ -140,6 +140,17 @@ class InitStreamAndLinalgMemorySpace(RewritePattern):
         if not operands_to_memory_cast:
             return
 
+        def is_available(cast_op: Operation) -> bool:
+            # a previous cast can only be reused if it is defined before this op,
+            # in the same block or in a block this op is nested in
+            cast_block = cast_op.parent_block()
+            ancestor: Operation | None = op
+            while ancestor is not None and ancestor.parent_block() is not cast_block:
+                ancestor = ancestor.parent_op()
+            if ancestor is None or cast_block is None:
+                return False
+            return cast_block.get_operation_index(cast_op) < cast_block.get_operation_index(ancestor)
+
         def get_cast_op(operand: SSAValue) -> memref.MemorySpaceCastOp:
             # cast required: find previous cast or create new one
             cast_op = None
@@ -148,6 +159,7 @@ class InitStreamAndLinalgMemorySpace(RewritePattern):
                     isinstance(use.operation, memref.MemorySpaceCastOp)
                     and isinstance(use_type := use.operation.dest.type, builtin.MemRefType)
                     and use_type.memory_space == L1.attribute
+                    and is_available(use.operation)
                 ):
                     cast_op = use.operation
                     break
